@@ -420,6 +420,9 @@ func (vc *VC) evalModifies(env *Env, fc *FuncContract) (targets []modTarget, err
 	for _, ml := range fc.Modifies {
 		switch ml.Kind {
 		case "all":
+			if strings.HasPrefix(ml.Comp, "ghost:g.") {
+				env.ghostCompTerm(strings.TrimPrefix(ml.Comp, "ghost:g.")) // registers the component
+			}
 			comp := vc.resolveCompName(env, ml.Comp)
 			for _, c := range comp {
 				targets = append(targets, modTarget{comp: c, whole: true})
@@ -504,6 +507,7 @@ func (vc *VC) flattenTargets(loc Loc, ft SType) []modTarget {
 	case KSlice:
 		var out []modTarget
 		for _, s := range []string{"#arr", "#off", "#len", "#cap"} {
+			vc.registerComp(loc.Prefix+s, compInfo{Sort: ArrSort(SInt, SInt), Depth: 1, NonNeg: s != "#arr", RefVals: s == "#arr"})
 			out = append(out, modTarget{comp: loc.Prefix + s, idx: loc.Idx[0]})
 		}
 		return out
@@ -513,6 +517,7 @@ func (vc *VC) flattenTargets(loc Loc, ft SType) []modTarget {
 	if len(loc.Idx) != 1 {
 		efail("modifies: nested location %s", loc.Prefix)
 	}
+	vc.registerComp(loc.Prefix, compInfo{Sort: ArrSort(SInt, ft.SortOf()), Depth: 1, RefVals: isRefKind(ft), NonNeg: ft.K == KInt && ft.Unsigned})
 	return []modTarget{{comp: loc.Prefix, idx: loc.Idx[0]}}
 }
 
@@ -524,20 +529,48 @@ func (vc *VC) resolveCompName(env *Env, name string) []string {
 	parts := strings.Split(name, ".")
 	// [pkgalias.]Type.field...
 	var tname, rest string
+	var owner *SType
 	if len(parts) >= 3 {
 		if st := vc.tryType(env, parts[0], parts[1]); st != nil {
-			tname, rest = typeKey(st.Go), strings.Join(parts[2:], ".")
+			tname, rest, owner = typeKey(st.Go), strings.Join(parts[2:], "."), st
 		}
 	}
 	if tname == "" && len(parts) >= 2 {
 		if st := vc.tryType(env, "", parts[0]); st != nil {
-			tname, rest = typeKey(st.Go), strings.Join(parts[1:], ".")
+			tname, rest, owner = typeKey(st.Go), strings.Join(parts[1:], "."), st
 		}
 	}
 	if tname == "" {
 		efail("cannot resolve component %s", name)
 	}
 	full := tname + "." + rest
+	// make sure the named field's components exist (a havoc of a component this function has not touched yet must
+	// still take effect on its later uses)
+	if owner != nil {
+		cur := *owner
+		okPath := true
+		for _, fname := range strings.Split(rest, ".") {
+			ft, _, ok := vc.lookupField(cur, fname)
+			if !ok {
+				okPath = false
+				break
+			}
+			cur = ft
+		}
+		if okPath {
+			switch cur.K {
+			case KStruct:
+				vc.registerStructComps(full, cur)
+			case KSlice:
+				for _, suf := range []string{"#arr", "#off", "#len", "#cap"} {
+					vc.registerComp(full+suf, compInfo{Sort: ArrSort(SInt, SInt), Depth: 1, NonNeg: suf != "#arr", RefVals: suf == "#arr"})
+				}
+			case KUnit, KArray, KTuple:
+			default:
+				vc.registerComp(full, compInfo{Sort: ArrSort(SInt, cur.SortOf()), Depth: 1, RefVals: isRefKind(cur), NonNeg: cur.K == KInt && cur.Unsigned})
+			}
+		}
+	}
 	// flatten if the named field is a struct or slice
 	var out []string
 	for _, c := range sortedKeys(vc.comps) {
@@ -856,7 +889,14 @@ func (vc *VC) applyHavoc(st *State, targets []modTarget, allocates bool, freshCo
 	for _, c := range sortedKeys(names) {
 		info, ok := vc.comps[c]
 		if !ok {
-			continue // never used by this VC: nothing is known about it anyway
+			// never used by this VC so far: remember it, a later first use must not see the entry value
+			if vc.havocedUnregistered == nil {
+				vc.havocedUnregistered = map[string]bool{}
+			}
+			if vc.dry == 0 {
+				vc.havocedUnregistered[c] = true
+			}
+			continue
 		}
 		ws := byComp[c]
 		cur := vc.hget(st.heap, c)
